@@ -259,6 +259,11 @@ class SpecEval:
             self.vc.register_qa({'vars': qvars, 'body': e[2], 'pkg': self.pkg, 'env': dict(self.env), 'st': self.st,
                                  'old': self.old, 'old_env': self.old_env, 'ante': list(self.ante), 'guard': self.guard, 'qvars': dict(self.qvars),
                                  'rec_level': self.rec_level})
+            named_qa = True
+        else:
+            named_qa = False
+        if False:
+            pass
         env = dict(self.env)
         decl = []
         ranges = []
@@ -278,7 +283,11 @@ class SpecEval:
         body = ev.eval(e[2])
         if body.sort != 'Bool':
             self.err('quantifier body is not boolean')
-        return V('(%s (%s) %s)' % (q, ' '.join(decl), body.term), 'Bool', 'bool')
+        qt = '(%s (%s) %s)' % (q, ' '.join(decl), body.term)
+        if named_qa and not self.mentions_bound(qt):
+            # a positive assumed universal clause: named, so that the instantiate-only variant of a query can drop it
+            qt = self.vc.define_quant(qt)
+        return V(qt, 'Bool', 'bool')
 
     def e_forall(self, e):
         return self.quant(e, 'forall')
@@ -479,6 +488,16 @@ class SpecEval:
             self.err('heapof in rec body')
         hn, hs = self.vc.field_heap(st_, fn_, ft_)
         return V(self.st.get(hn, hs), hs, 'fmap[' + ft_ + ']')
+
+    def b_elems(self, args):
+        """elems(s): the whole backing array of slice s as a value (no quantifier needed to say it is unchanged)"""
+        x = self.eval(args[0])
+        if x.sort != 'Slice' or self.st is None:
+            self.err('elems() of non-slice')
+        ets = self.prog.under(x.ts)['elem']
+        es = self.vc.sort_of(ets)
+        hn, hs = self.vc.elem_heap(es)
+        return V('(select %s (s.arr %s))' % (self.st.get(hn, hs), x.term), 'Arr:' + es, None)
 
     def b_arr(self, args):
         x = self.eval(args[0])
